@@ -14,12 +14,15 @@ use super::c23::wc_common::*;
 use super::c23::{CONTENTS, PATHS, gen_sparse, gen_tree, pick_s};
 use super::c24::expected_leaves;
 
+static PLANTS: std::sync::atomic::AtomicU64 = std::sync::atomic::AtomicU64::new(0);
+
 fn plant(env: &Env, r: &mut Rng, out: &mut Out, old: &TreeM, new: &TreeM) {
     let mut targets: Vec<P> = new.keys().chain(old.keys()).cloned().collect();
     targets.sort();
     targets.dedup();
+    let mut disk = scan(&env.root);
     for q in &targets {
-        let disk = scan(&env.root);
+        let before_n = PLANTS.load(std::sync::atomic::Ordering::Relaxed);
         let on_disk = disk.get(q).cloned();
         let parent_blocked = (1..q.len()).any(|n| matches!(disk.get(&q[..n].to_vec()), Some(Ent::File(..)) | Some(Ent::Link(_))));
         if parent_blocked { continue; }
@@ -29,15 +32,15 @@ fn plant(env: &Env, r: &mut Rng, out: &mut Out, old: &TreeM, new: &TreeM) {
                 if (1..q.len()).all(|n| disk.get(&q[..n].to_vec()) != None || true) {
                     let e = if r.chance(1, 4) { Ent::Link(pick_s(r, &["../canary/x", "f", "nowhere"]).into()) } else { Ent::File(b"UNTRACKED\n".to_vec(), r.chance(1, 5)) };
                     env.put(q, &e);
-                    out.tally("plant", "untracked-at-path");
+                    { PLANTS.fetch_add(1, std::sync::atomic::Ordering::Relaxed); } out.tally("plant", "untracked-at-path");
                 }
             }
-            2 if on_disk.is_none() => { env.put(q, &Ent::Dir); out.tally("plant", "dir-at-path"); }
+            2 if on_disk.is_none() => { env.put(q, &Ent::Dir); { PLANTS.fetch_add(1, std::sync::atomic::Ordering::Relaxed); } out.tally("plant", "dir-at-path"); }
             3 if on_disk.is_none() => {
                 let mut inner = q.clone();
                 inner.push("u".into());
                 env.put(&inner, &Ent::File(b"INNER\n".to_vec(), false));
-                out.tally("plant", "nonempty-dir-at-path");
+                { PLANTS.fetch_add(1, std::sync::atomic::Ordering::Relaxed); } out.tally("plant", "nonempty-dir-at-path");
             }
             4 if q.len() > 1 => {
                 // a symlink to the canary (or to a workspace directory) where a directory is expected
@@ -45,25 +48,26 @@ fn plant(env: &Env, r: &mut Rng, out: &mut Out, old: &TreeM, new: &TreeM) {
                 let t = pick_s(r, &["../canary", "../canary/sub", "h", "nowhere"]);
                 env.rm(&anc);
                 env.put(&anc, &Ent::Link(t.into()));
-                out.tally("plant", "symlink-for-parent-dir");
+                { PLANTS.fetch_add(1, std::sync::atomic::Ordering::Relaxed); } out.tally("plant", "symlink-for-parent-dir");
             }
             5 if q.len() > 1 => {
                 let anc = q[..r.range(1, q.len() - 1)].to_vec();
                 env.rm(&anc);
                 env.put(&anc, &Ent::File(b"FILE-FOR-DIR\n".to_vec(), false));
-                out.tally("plant", "file-for-parent-dir");
+                { PLANTS.fetch_add(1, std::sync::atomic::Ordering::Relaxed); } out.tally("plant", "file-for-parent-dir");
             }
             6 if matches!(on_disk, Some(Ent::File(..))) => {
                 env.put(q, &Ent::File(b"MODIFIED\n".to_vec(), r.chance(1, 4)));
-                out.tally("plant", "modified-tracked");
+                { PLANTS.fetch_add(1, std::sync::atomic::Ordering::Relaxed); } out.tally("plant", "modified-tracked");
             }
             7 if matches!(on_disk, Some(Ent::File(..))) => {
                 env.put(q, &Ent::Link("../canary/f".into()));
-                out.tally("plant", "tracked-replaced-by-symlink-to-canary");
+                { PLANTS.fetch_add(1, std::sync::atomic::Ordering::Relaxed); } out.tally("plant", "tracked-replaced-by-symlink-to-canary");
             }
-            8 if on_disk.is_some() && on_disk != Some(Ent::Dir) => { env.rm(q); out.tally("plant", "tracked-deleted"); }
+            8 if on_disk.is_some() && on_disk != Some(Ent::Dir) => { env.rm(q); { PLANTS.fetch_add(1, std::sync::atomic::Ordering::Relaxed); } out.tally("plant", "tracked-deleted"); }
             _ => {}
         }
+        if PLANTS.load(std::sync::atomic::Ordering::Relaxed) != before_n { disk = scan(&env.root); }
     }
     // unrelated untracked files, some inside directories the trees use
     for s in ["zz", "d/zz", "h/zz", "ig/zz", "d/e/zz"] {
@@ -72,14 +76,14 @@ fn plant(env: &Env, r: &mut Rng, out: &mut Out, old: &TreeM, new: &TreeM) {
             let disk = scan(&env.root);
             if (1..q.len()).any(|n| matches!(disk.get(&q[..n].to_vec()), Some(Ent::File(..)) | Some(Ent::Link(_)))) { continue; }
             env.put(&q, &Ent::File(format!("KEEP {s}\n").into_bytes(), false));
-            out.tally("plant", "unrelated-untracked");
+            { PLANTS.fetch_add(1, std::sync::atomic::Ordering::Relaxed); } out.tally("plant", "unrelated-untracked");
         }
     }
 }
 
 pub fn run(cfg: &Cfg, out: &mut Out) {
     let mut r = cfg.rng(25);
-    let workspaces = cfg.n(200, 4000);
+    let workspaces = cfg.n(90, 4000);
     let _ = (CONTENTS, PATHS);
     for _ in 0..workspaces {
         let mut env = Env::new();
